@@ -40,13 +40,14 @@ ASSUMPTIONS = ['preemption inside C-level calls is impossible under the GIL; mor
                'creation timestamps of EPS/PDF/TeX are masked']
 CHUNK = 4
 
-CORE = ['make_eci_utf8', 'make_eci_latin', 'fail_eci_utf16', 'make_int_1', 'make_bool_true', 'make_ab', 'make_ab_cd', 'make_q_auto', 'eps_float_tuple', 'eps_int_tuple', 'make_m1_numeric', 'make_m2_alnum', 'make_m3_kanji', 'make_1h', 'make_2_align', 'make_parts', 'make_eci', 'make_hanzi', 'seq_version',
+CORE = ['make_section_sign', 'make_greek', 'make_list_args', 'broken_stream_tex', 'make_eci_utf8', 'make_eci_latin', 'fail_eci_utf16', 'make_int_1', 'make_bool_true', 'make_ab', 'make_ab_cd', 'make_q_auto', 'eps_float_tuple', 'eps_int_tuple', 'make_m1_numeric', 'make_m2_alnum', 'make_m3_kanji', 'make_1h', 'make_2_align', 'make_parts', 'make_eci', 'make_hanzi', 'seq_version',
         'seq_count', 'save_png_palette', 'save_png_colorful', 'save_ppm_colormap', 'save_ppm_colormap_b', 'save_svg_colorful', 'save_pdf',
         'matrix_iter_verbose', 'helper_epc', 'cli_terminal', 'fail_overflow', 'fail_colour', 'fail_mode']
 PAIRS_SMALL = [('make_m1_numeric', 'make_m1_other'), ('make_m2_alnum', 'make_m3_byte'), ('make_m1_numeric', 'make_parts'),
                ('make_m3_kanji', 'make_m3_byte'), ('fail_mode', 'make_m1_numeric')]
 PAIRS_SAVE = [('ppm_small_a', 'ppm_small_b'), ('png_small', 'svg_small'), ('seq_small', 'make_m2_alnum'), ('ppm_small_a', 'make_m1_numeric'),
-              ('iter_verbose_v2_a', 'iter_verbose_v2_b'), ('make_1h', 'make_1h_other')]
+              ('iter_verbose_v2_a', 'iter_verbose_v2_b'), ('make_1h', 'make_1h_other'),
+              ('shared_svg', 'shared_matrix'), ('shared_eps', 'shared_png')]
 PAIRS_LARGE = [('save_ppm_colormap', 'save_ppm_colormap_b'), ('save_png_palette', 'save_svg'),
                ('seq_count', 'make_m2_alnum'), ('save_png_colorful', 'make_m1_numeric'), ('make_m2_alnum', 'fail_overflow')]
 SAME_SHAPE = {('make_m1_numeric', 'make_m1_other'), ('ppm_small_a', 'ppm_small_b'), ('iter_verbose_v2_a', 'iter_verbose_v2_b'), ('make_1h', 'make_1h_other')}
@@ -140,12 +141,22 @@ def _fn(name):
     return lambda: O.observe(name)[0]
 
 
+PROLOGUE = {('shared_svg', 'shared_matrix'), ('shared_eps', 'shared_png'), ('shared_svg', 'shared_iter'), ('shared_png', 'shared_eps')}
+
+
+def _prologue(a, b):
+    if (a, b) in PROLOGUE:
+        O.prologue_shared()             # one symbol created before the threads start; both threads work on the SAME object
+
+
 def _profile_child(a, b, gran):
+    _prologue(a, b)
     ra, rb = O.digest(O.observe(a)[0]), O.digest(O.observe(b)[0])
     return ra, rb
 
 
 def _exec_child(a, b, gran, start, switches):
+    _prologue(a, b)
     res, st, pre = sched.Execution([_fn(a), _fn(b)], LIBDIR, start, switches, gran).run()
     return tuple(O.digest(r) for r in res), tuple(st), pre, [repr(r)[:160] for r in res]
 
@@ -200,7 +211,8 @@ def plan_schedules(tier):
     for i, (a, b) in enumerate(PAIRS_SMALL):
         plan.append((a, b, 'line' if (not q or i in (0, 2, 4)) else 'call', 1))
     for (a, b) in PAIRS_SAVE:
-        plan.append((a, b, 'call' if q else 'line', 1))
+        heavy = (a, b) in (('make_1h', 'make_1h_other'), ('iter_verbose_v2_a', 'iter_verbose_v2_b'))
+        plan.append((a, b, 'line' if ((not q and not heavy) or (a, b) in PROLOGUE) else 'call', 1))
     if not q:
         for (a, b) in PAIRS_LARGE:
             plan.append((a, b, 'call', 1))
